@@ -10,6 +10,7 @@ CONSTANTS
   SameVersionChains = FALSE
   Backends <- BothBackends
   Points <- PointsDef
+  TrackLineage <- TrueConst
 VIEW cgenview
 INVARIANTS EmitCrash CrashWellFormed
 CHECK_DEADLOCK FALSE
